@@ -46,10 +46,15 @@ CONTROLS = [
     # changes when the caller changes its dict
     ("Buggy_NominalHashable", "invariant", "BuiltOK"),
     ("Buggy_NominalHashable_imm", "property", "Immutable"),
+    # round 6: equality memoised by ADDRESS ("I compared equal to the object at this address
+    # last time"): an object dies, a different one is built where it was
+    ("Buggy_AddrMemo", "invariant", "EqIsPyEq"),
+    ("Buggy_AddrMemo_dict", "invariant", "DictFindsEqual"),
 ]
 # the quick tier runs one control per Bug switch (the machine-wide TLC slots are scarce)
 THOROUGH_ONLY = {"Buggy_DropField_dict", "Buggy_StaleHash_eq", "Buggy_ClassMemo_dict",
-                 "Buggy_PickleKeepsHash_dict", "Buggy_KwDropped_copy", "Buggy_NominalHashable_imm"}
+                 "Buggy_PickleKeepsHash_dict", "Buggy_KwDropped_copy", "Buggy_NominalHashable_imm",
+                 "Buggy_AddrMemo_dict"}
 
 
 def _side_runs(tier):
@@ -108,6 +113,9 @@ def signature(v):
             sig["op"] = v["op"]
         if v.get("via"):
             sig["via"] = sorted(v["via"])
+        if v.get("addr"):
+            # one of the objects sits at the address a dead object had
+            sig["addr"] = v["addr"]
         return sig
     if clause in ("BuiltHashable", "BuiltAsGiven"):
         return {"clause": clause, "cls": v.get("cls0", ""), "forms": sorted(v.get("forms", []))}
@@ -126,11 +134,15 @@ def _classify(recs, cases, verdicts, out):
     recid = {r["id"]: r for r in recs}
     seen = set()
     nfail = 0
+    heap = {"histories": 0, "with_an_object_at_a_dead_objects_address": 0}
     for v in verdicts:
         if not isinstance(v, dict) or "id" not in v:
             continue
         seen.add(v["id"])
         out.drift += v.get("drift", 0)
+        if byid[v["id"]].get("sweep") in ("heap", "heapd", "heapx") and v["v"] != "SKIP":
+            heap["histories"] += 1
+            heap["with_an_object_at_a_dead_objects_address"] += 1 if v.get("reu", 0) > 0 else 0
         if v["v"] == "OK":
             continue
         if v["v"] == "SKIP":
@@ -143,6 +155,12 @@ def _classify(recs, cases, verdicts, out):
                                 "trees": rec["trees"]})
     if len(seen) != len(recs):
         raise kit.MachineryError(f"C01 judge produced {len(seen)} verdicts for {len(recs)} traces")
+    out.extra["object_lifetimes"] = heap
+    if heap["histories"] > 20 and 2 * heap["with_an_object_at_a_dead_objects_address"] < heap["histories"]:
+        raise kit.MachineryError(
+            f"C01: only {heap['with_an_object_at_a_dead_objects_address']} of {heap['histories']} lifetime "
+            "histories put the new object at the address of the dead one: the driver did not exercise "
+            "address reuse (other allocator?), the heap sweeps show nothing")
     if len(recs) > 20 and out.skipped > max(5, len(recs) // 50):
         raise kit.MachineryError(f"C01: {out.skipped} of {len(recs)} traces were not judgeable (SKIP); "
                                  "the catalogue is built to be inside the model, so the driver or the "
@@ -327,7 +345,13 @@ def run(tier, seed, out):
                  "nodes as values, nested in a Sum) whose first member is built from each of 6 forms of "
                  "Mapping (dict, OrderedDict, ChainMap, a user Mapping class, MappingProxyType over a "
                  "dict, MappingProxyType over an immutabledict) x every history of length 2 over {the "
-                 "caller mutates what it passed, Hash1, Hash2, Eq12, Eq21, Put1, Get2}"
+                 "caller mutates what it passed, Hash1, Hash2, Eq12, Eq21, Put1, Get2}; object lifetimes: 14 "
+                 "tuples (a, separately built equal of a, c of the same class differing in one field by a "
+                 "hash-colliding value -1/-2, plainly, or not at all; pure legacy class, legacy children in "
+                 "five hierarchy shapes, decorated / plain / built-in classes, nested legacy nodes) x every "
+                 "history with 3 events other than New over {hash, ==, dict put, dict get on the live objects, "
+                 "Drop of a live object, New-again of c once an address is free} that ends with a use of the "
+                 "new object, and x every history with 4 such events over {put of a, look-ups, Drop, New-again}"
                  if tier == "quick" else
                  "every unordered pair inside each catalogue family x every history of length 2, every "
                  "near pair x every history of length 3 over the pair alphabet; 24 representative pairs "
@@ -338,7 +362,12 @@ def run(tier, seed, out):
                  "over the self alphabet (== / != with itself, hash, dict put / get of itself, copies, "
                  "mappers, the same on the results), the 21 NaN-holding members x length 3; 8 pairs of "
                  "keyword-argument calls x 6 forms of Mapping for the first member x every history of "
-                 "length 3 over {the caller mutates what it passed, Hash1, Hash2, Eq12, Eq21, Put1, Get2}")
+                 "length 3 over {the caller mutates what it passed, Hash1, Hash2, Eq12, Eq21, Put1, Get2}; "
+                 "object lifetimes: (a, twin of a, c) for the 14 lifetime pairs, the representative pairs and "
+                 "every near pair of the user-class families, 4 tuples whose second member is ==-but-other-"
+                 "type x every history with 3 events other than New over {hash, ==, put, get on the live "
+                 "objects, Drop, New-again} ending with a use of the new object, and x every history with 4 "
+                 "such events over {put of a, look-ups, Drop, New-again}")
     out.rule = ("TLC enumerates (C01_Gen over the 328-object catalogue in 27 families): " + pairs_txt +
                 "; plus seeded -simulate random walks of 8 operations from any family pair/triple. "
                 "A case is one history (New events + operations), replayed on fresh objects; "
@@ -358,7 +387,7 @@ def run(tier, seed, out):
                 clss[e["spec"]["cls"]] = clss.get(e["spec"]["cls"], 0) + 1
     out.extra["events_by_operation"] = ops
     out.extra["objects_by_class"] = clss
-    out.extra["sweeps"] = {s: sum(1 for c in cases if c["sweep"] == s) for s in ("pairs", "near", "deep", "deepq", "hier", "xtwin", "xnear", "xdeep", "self", "selfn", "forms", "sim")}
+    out.extra["sweeps"] = {s: sum(1 for c in cases if c["sweep"] == s) for s in ("pairs", "near", "deep", "deepq", "hier", "xtwin", "xnear", "xdeep", "self", "selfn", "forms", "heap", "heapd", "heapx", "sim")}
     out.assumptions += [
         "CPython semantics of ==/hash on tuples, numbers, str, mappings as transcribed in C01_Values.tla",
         "default interpreter mode (__debug__ true); python -O is out of scope as the statement says",
@@ -373,6 +402,12 @@ def run(tier, seed, out):
         "fails is SKIP (C17)",
         "cross-interpreter arrival: only ==/hash/dict behaviour of the unpickled object is judged here, "
         "whether and how faithfully an expression pickles is C17 (a failed pickle is SKIP)",
+        "object lifetimes: a Drop event ends the lifetime of an object for real (reference given up, CPython "
+        "frees it, gc.collect() if not), every later object is recorded with its address (id()); the driver "
+        "keeps the freed block reserved with a non-expression placeholder until the next constructor call so "
+        "that its own recording work does not take it; TLC reports per history whether a new object sat at a "
+        "dead object's address (evidence: object_lifetimes) - the clauses never read an address; fewer than "
+        "half of the lifetime histories with a reused address is a machinery failure",
         "float NaN constants are in the model with the identity of the float object (three-valued "
         "meaning: the answer of == between two DIFFERENT objects that share a NaN object directly in a "
         "field, or that may share a nested NaN-holding node, is not fixed by the statement and not judged; "
